@@ -5,7 +5,9 @@ import json, os, subprocess
 HERE = os.path.dirname(os.path.abspath(__file__))
 
 TECH = "bounded model checking of the compiled Rust code: Kani 0.68 / CBMC 6.11 (CaDiCaL) over #[kani::proof] harnesses with kani::any() inputs"
-TECH_MIR = TECH + "; plus path-exploring symbolic execution of the rustc MIR of the parser/builders/combinators with z3 (mirsym)"
+TECH_MIR = TECH + "; plus path-exploring symbolic execution of the rustc MIR of the real functions with z3 (mirsym)"
+MIR_ONLY = "path-exploring symbolic execution of the rustc MIR of the real functions (cargo +nightly rustc -Zunpretty=mir) with z3 deciding branch feasibility and the per-path obligations (mirsym)"
+MIRSYM = ("C01", "C11", "C04", "C19", "C18", "C02", "C08", "C09")
 
 CLAIMS = {
  "C01": ("End-to-end (mirsym): tokens -> tree -> evaluation equals the grammar's reference evaluation (precedence, '!', -a/juxtaposition, -o, ',', parentheses, short-circuit, implicit -print, -quit) for all token sequences within the bound. Inductive step (Kani) for arbitrary children: And/Or/List/Not nodes (order, short-circuit, ',' value, quit cut-off, action flag, finished callbacks), the And-builder (1-3 leaves), the is-an-action table, the implicit -print decision of build_top_level_matcher, -quit in the walk loop and across starting points.",
@@ -18,7 +20,7 @@ CLAIMS = {
          "Pre/post-order and sibling order themselves are walkdir's (trusted). Path::parent is cut in the loop harness (disables only finished_dir bookkeeping).",
          "4 C03"),
  "C04": ("Each limiter (-n, -L, -s) as one step from an arbitrary valid state over full-width usize; the real -n,-L,-s chain (one and two steps); and the whole batching loop process_input against every sequence of limiter verdicts and child outcomes for <=3 input arguments: order-preserving, lossless, flush only on rejection, retry in a fresh invocation, too-large diagnosis, -x, empty input/-r.",
-         "Composition argument: process_input is checked against arbitrary verdicts (CommandBuilder::{new,add_arg,execute} are recorders), the limiters' verdicts are checked separately; CommandBuilderOptions::new (initial arguments pre-charged) and do_xargs' option plumbing (clap) are not covered.",
+         "mirsym adds the end-to-end run without the composition argument: CommandBuilderOptions::new + process_input with the REAL -n/-L/-s limiter chain for 0..3 (thorough 4) arguments of symbolic length (1..40), symbolic limits, line structure and child outcomes, seven option sets; per path z3 discharges: order-preserving and lossless, every invocation within all limits, maximal, too-large diagnosis, -x, empty input/-r, result. Kani part: composition argument: process_input is checked against arbitrary verdicts (CommandBuilder::{new,add_arg,execute} are recorders), the limiters' verdicts are checked separately; CommandBuilderOptions::new (initial arguments pre-charged) and do_xargs' option plumbing (clap) are not covered.",
          "4 C04"),
  "C05": ("The whitespace/quote reader against a reference tokenizer for every input of <=2 bytes (thorough 3) over a 6/10-letter alphabet (letter, blank, newline, tab, ', \", \\, VT, 0x85, 0xA0), two consecutive next() calls, chunkings [n], [1,1] (thorough [1,2],[2,1],[1,1,1]); parse_delimiter total on <=3 ASCII bytes.",
          "Vec::resize(4096) capped at 4 bytes and from_utf8_lossy = identity in the harness (bytes compared raw); the 4096-byte buffer edge, inputs >3 bytes, -0/-d reader (BufReader: out of memory) and reader selection (clap) are outside. '' as a whole token is assumed away (property silent).",
@@ -26,6 +28,12 @@ CLAIMS = {
  "C06": ("One inductive step of the system limiter against the kernel's execve acceptance predicate for all RLIMIT_STACK (512 KiB..2^40), environment sizes, argument counts/bytes: the strings+headroom guarantee holds; the full predicate (8-byte pointers, 6 MiB cap) is the recorded known finding F-C06.",
          "Kernel/glibc contract quoted from execve(2)/fs/exec.c, not executed. The budget formula of new_system (sysconf FFI, HashMap iteration) is copied into the harness: an edit confined to new_system is not detected. MAX_ARG_STRLEN needs a 128 KiB string: outside.",
          "4 C06"),
+ "C08": ("MIR-level symbolic execution (mirsym) of the real process_dir loop, WalkEntry::from_walkdir and MultiExecMatcher (built by the real parser from -exec/-execdir cmd fixed {} +) over a scripted tree in pre- and post-order, for every script of 'fits / does not fit' verdicts and invocation outcomes: each reached path is passed to exactly one invocation, after the fixed arguments, in visit order; a batch is dispatched early only when the next path did not fit; every pending invocation has run when process_dir returns, also after -quit; -execdir batches hold entries of one directory named ./basename and run in that directory; the action is true; the status is non-zero iff an invocation failed or could not be started.",
+         "argmax::Command (what fits, assumed: a fresh command line always admits one path), std::process::Command, walkdir (documented pre/post-order and skip semantics on a 5-entry tree with blanks, quotes, braces and a leading dash in names) and std::path (on concrete text) are natives/models in mirsym; 'accepted by the operating system' is argmax's business and is not covered.",
+         "4 C08"),
+ "C09": ("mirsym: the real SingleExecMatcher::{new,matches} behind '-exec[dir] cmd T1 T2 ; -print' (parsed by the real parser) in the real process_dir loop: one run per reached file; argv = cmd followed by each template with every {} replaced by the path (./basename for -execdir, run in the file's directory), for all pairs of templates from a 7-word vocabulary ({} alone, embedded, twice, absent, empty) and file names with blanks, quotes, braces, leading dash; the action is true iff the child exits 0 (observed through the following -print); a failing or unstartable command does not change find's status.",
+         "std::process::Command, str::split / [OsString]::join / std::path (on concrete text), walkdir are natives/models; byte-exactness of argv beyond text equality (no word splitting is possible in the modelled Command::arg) and non-UTF-8 names are outside.",
+         "4 C09"),
  "C10": ("-delete's decision for every entry kind: exactly one removal call on the entry's own path, rmdir iff the entry itself (lstat) is a directory under every follow mode and link kind, failure => false and exit status 1, success => true, '.' skipped; -delete is an action.",
          "remove_dir/remove_file/stat/lstat are a symbolic world under the kernel's contract. 'Only entries for which EXPR is true' = And short-circuit (C01 step); children-before-parent = walkdir's contents_first (requested: C02/C03 walk_config); '-delete implies -depth' is set in the parser (not covered).",
          "4 C10"),
@@ -48,7 +56,7 @@ CLAIMS = {
          "Width/justification (fmt::write exhausts memory), %p %f %h %H %P (std::path on symbolic bytes), %l, time directives (chrono), %u %g (FFI), the directive-letter table of parse_format_specifier are outside.",
          "4 C16"),
  "C18": ("The operand scan of parse_args for every pair of tokens from a 12-word vocabulary (follow flags, --, operands incl. '-', './a/', expression starters): operands in order, spelled as given, default '.'; do_find walks <=3 starting points in order, isolates failures, stops after quit.",
-         "build_top_level_matcher and process_dir are scripts in these harnesses; -files0-from (file/stdin reads) is not covered; missing starting points are walkdir's error path (abstracted as an error step).",
+         "mirsym: the real parse_args + do_find + expression parser on every command line of <= 3 tokens over a 15-word vocabulary (options, --, operands incl. '-', './b/', '..', expression starters) with a symbolic per-starting-point status and quit: operands, order, spelling, default '.', follow mode, status accumulation, stop after quit. Kani: build_top_level_matcher and process_dir are scripts in these harnesses; -files0-from (file/stdin reads) is not covered; missing starting points are walkdir's error path (abstracted as an error step).",
          "4 C18"),
  "C19": ("Classification of a child's fate by execute() for every wait status / spawn errno; exit-code mapping of xargs_main for every result variant; sticky failure; and, in the process_input protocol harness, every sequence of <=5 outcomes: stops at once on 255/signal/not-found, continues past 1..125.",
          "Command::status replaced by a symbolic outcome under the Linux wait-status encoding; do_xargs replaced by a stub in the mapping harness.",
@@ -57,8 +65,6 @@ CLAIMS = {
 
 NOT_APPLICABLE = {
  "C07": "Both end points exhaust memory at two symbolic path bytes: Printer::print goes through fmt::write (formatting is the subject, so it cannot be cut) and the -0 reader through BufReader::read_until; the path in between is walkdir's. Nothing decidable remains (DESIGN.md C07).",
- "C08": "The batch is an argmax::Command (external crate, environment + sysconf through FFI); the findutils half needs std::path and a heap-mutating RefCell<Option<Command>> loop that did not fit in memory. Only 'finished() runs exactly once, also after -quit' is checked (under C03's walk loop).",
- "C09": "SingleExecMatcher::{new,matches} with one symbolic path byte exhausts memory at 14 GB and 25 GB (str::split, Vec<OsString>::join, Command::arg CString handling); no smaller meaningful shape exists; the ';' scan is in the parser.",
  "C17": "RegexMatcher is a 3-line wrapper over oniguruma (C): language membership, whole-string vs first-match and syntax tables are foreign code outside any bound CBMC finishes.",
  "C20": "Option precedence lives in normalize_options on clap::ArgMatches (not constructible); the textual replacement is str::replace (std's Two-Way searcher on symbolic strings, same cost class as the probes that did not finish). 'One run per line / empty input' is process_input with -n 1, which C04's protocol harness covers, but the property's core is not reachable.",
 }
@@ -74,12 +80,12 @@ def main():
             "thorough_cmd": "./check.py %s --tier thorough" % pid,
             "evidence_file": "evidence/%s.json" % pid,
             "replay_cmd_template": "./check.py --replay {path}",
-            "engine": "kani+mirsym" if pid in ("C01", "C11") else "kani",
+            "engine": "mirsym" if pid in ("C08", "C09") else "kani+mirsym" if pid in MIRSYM else "kani",
             "level_claimed": {"category": "model_checking",
                               "text": text + " Bounded: holds for all inputs within the bounds printed per query in the evidence file; nothing is called a proof.",
                               "design_ref": "DESIGN.md section " + ref},
             "level_note": note + " Trusted: Kani's MIR->goto translation and std models, CBMC + CaDiCaL, the listed #[kani::stub] cuts, the reference models in /verif/harness.",
-            "technique": TECH_MIR if pid in ("C01", "C11") else TECH,
+            "technique": MIR_ONLY if pid in ("C08", "C09") else TECH_MIR if pid in MIRSYM else TECH,
         })
     hooks_commits = subprocess.run(["git", "-C", "/repo", "log", "--format=%h", "--grep=^verif hooks"], capture_output=True, text=True).stdout.split()
     m = {
@@ -94,8 +100,8 @@ def main():
         },
         "engines": [{"name": "kani", "path": "check.py", "serves_properties": sorted(CLAIMS),
                      "kind_free_text": "Kani 0.68.0 / CBMC 6.11.0 bounded model checker over in-crate #[kani::proof] harnesses (harness/*.rs), driven by check.py"},
-                    {"name": "mirsym", "path": "mirsym/run.py", "serves_properties": ["C01", "C11"],
-                     "kind_free_text": "own symbolic interpreter for rustc's MIR dump (cargo +nightly rustc -Zunpretty=mir, regenerated from /repo on every run): executes build_top_level_matcher, the builders and the combinators' matches() on symbolic token sequences; z3 decides branch feasibility; std calls are modelled (mirsym/models.py)"}],
+                    {"name": "mirsym", "path": "mirsym/run.py", "serves_properties": ["C01", "C02", "C04", "C08", "C09", "C11", "C18", "C19"],
+                     "kind_free_text": "own symbolic interpreter for rustc's MIR dump (cargo +nightly rustc -Zunpretty=mir, regenerated from /repo on every run): executes the real parser/builders/combinators, parse_args/do_find, CommandBuilderOptions::new/process_input with the real limiter chain, process_dir with the -exec matchers; z3 decides branch feasibility and discharges the per-path obligations; std/external calls are modelled (mirsym/models.py, natives_fs.py)"}],
         "checks": checks,
         "not_applicable": [{"property_id": k, "reason": v} for k, v in sorted(NOT_APPLICABLE.items())],
         "notes": "Solver-based checking only. Exit 0 = verified (KNOWN-FINDING lines for recorded defects), 1 = VIOLATION, 2 = INCONCLUSIVE (timeout/OOM/vacuity guard). known_findings.json lists recorded and fixed defects; seeded/ holds confirmed breaking changes used to test the checks.",
